@@ -282,13 +282,14 @@ Theorem C16_store_records_live :
 Proof. exact reach_SI. Qed.
 Print Assumptions C16_store_records_live.
 
-(* a record this node stored (store_record, or the local half of put_record) is found by every later
-   GetRecord(Quorum::One), whatever happened in between, as long as the store's capacity is not exceeded *)
+(* a record this node stored (`stores`: store_record, the local half of put_record, or — with automatic
+   validation — a PUT_VALUE of a remote peer) is found by every later GetRecord(Quorum::One), whatever
+   happened in between, as long as the store's capacity is not exceeded *)
 Theorem C16_put_then_get :
   forall wc m L us1 u us2 q rk target,
   1 <= wc_ttl wc -> REC_LEN < V.C17.Model.max_size (wc_scfg wc) ->
   N.of_nat (length (us1 ++ u :: us2)) <= V.C17.Model.max_records (wc_scfg wc) ->
-  (u = UStoreRecord rk \/ exists q0 qr0 t0, u = UCmd q0 (UCPut qr0 rk) t0) ->
+  stores wc (fst (crun wc (w0 wc m L) us1)) u rk ->
   let w := fst (crun wc (w0 wc m L) (us1 ++ u :: us2)) in
   fst (cstep wc w (UCmd q (UCGet QOne rk) target)) =
   (w, [OPartial q (g_local (wc_g wc)) LOCAL_REC; OGetRecSuccess q]).
@@ -454,7 +455,7 @@ Theorem C16_serve_after_put :
   forall wc m L us1 u us2 rk id target,
   1 <= wc_ttl wc -> REC_LEN < V.C17.Model.max_size (wc_scfg wc) ->
   N.of_nat (length (us1 ++ u :: us2)) <= V.C17.Model.max_records (wc_scfg wc) ->
-  (u = UStoreRecord rk \/ exists q0 qr0 t0, u = UCmd q0 (UCPut qr0 rk) t0) ->
+  stores wc (fst (crun wc (w0 wc m L) us1)) u rk ->
   let w := fst (crun wc (w0 wc m L) (us1 ++ u :: us2)) in
   inbound_read (w_st w) id = true ->
   reply_of wc w (UInReq id (IGetValue rk target)) = Some (true, seeds_of wc (w_rt w) target).
